@@ -340,8 +340,10 @@ func (db *DB) setPin(batch driver.Batching, item, rootItem shed.Item) (gcSizeCha
 						return 0, err
 					}
 				}
+				// the counter follows the gc entry: nothing is
+				// subtracted when the file has no gc entry any more
+				gcSizeChange--
 			}
-			gcSizeChange--
 		}
 	}
 
